@@ -10,7 +10,10 @@ sys.path.insert(0, os.path.join(VERIF, "engine_m"))
 
 QUERIES = ("mutex", "race", "deadlock", "panic", "try")
 
-# (programs, K, per-query timeout seconds)
+NORACE = {"queries": ["mutex", "deadlock", "panic", "try"]}
+RACE = {"queries": ["race"]}
+
+# (programs, K, per-query timeout seconds[, options])
 CONFIGS = {
     "C01": {
         "kind": "mutex",
@@ -23,7 +26,9 @@ CONFIGS = {
         ],
         "thorough": [
             (["m_lock_w", "m_lock_w"], 40, 3000),
-            (["m_lock_w_lock_r", "m_lock_w_lock_r"], 36, 3000),
+            # the happens-before query at K=36 gave no verdict in 3000 s: it runs at K=30
+            (["m_lock_w_lock_r", "m_lock_w_lock_r"], 36, 3000, NORACE),
+            (["m_lock_w_lock_r", "m_lock_w_lock_r"], 30, 3000, RACE),
             (["m_try_then_lock_w", "m_lock_w"], 32, 3000),
             (["m_lock_w", "m_lock_w", "m_lock_w"], 28, 3400),
             (["m_try_w", "m_lock_w", "m_lock_w"], 26, 3400),
@@ -32,8 +37,6 @@ CONFIGS = {
     },
 }
 
-NORACE = {"queries": ["mutex", "deadlock", "panic", "try"]}
-RACE = {"queries": ["race"]}
 CONFIGS["C02"] = {
     "kind": "rwlock",
     # the happens-before (race) query is several times more expensive than the others: it runs at a smaller K
